@@ -410,6 +410,13 @@ func runC03(c *CaseCtx) *CaseResult {
 // C10: mutation through handles of nested containers
 
 func runC10(c *CaseCtx) *CaseResult {
+	if base := registry["C10"].Cases(c.Tier) - ssParts; c.Case >= base {
+		depth := 4
+		if c.Tier == "thorough" {
+			depth = 5
+		}
+		return runSmallScopeNested(c, depth, c.Case-base, ssParts)
+	}
 	r := rand.New(rand.NewSource(c.CaseSeed() ^ 0xc10))
 	kind := "array"
 	if c.Case%2 == 1 {
@@ -721,12 +728,13 @@ func init() {
 		Mandatory:   []string{"crash_points", "cold_reopens", "crash-points-with-pending-changes", "temp-root-cases"},
 	})
 	register(&Prop{
-		ID: "C10", Level: "exploration", Run: runC10, Cases: cases(16*60, 16*300), MinNonTrivial: 8,
+		ID: "C10", Level: "exploration", Run: runC10, Cases: cases(16*60+ssParts, 16*300+ssParts), MinNonTrivial: 8,
 		Rule: "cases = seeded histories on trees of depth 3-5 mixing arrays and maps, wrapped and unwrapped children; 72% of operations go through handles of nested containers (acquired on insertion, by Get, refreshed at PRNG times), every mutator incl. SetType and bulk pop; " +
 			"after EVERY operation the whole tree is compared with the model from the ROOT (structure walk incl. the inline rule: inlined iff single slab within the parent's element limit minus wrapper size; value ids constant) and at commits rebuilt cold from registers. " +
-			"non-trivial = children flipped inline->standalone and standalone->inline, handles were refreshed, cold reopen happened; distinct by hash(config, operation list)",
+			"non-trivial = children flipped inline->standalone and standalone->inline, handles were refreshed, cold reopen happened; distinct by hash(config, operation list). " +
+			"The last 32 cases are a SMALL-SCOPE EXHAUSTIVE exploration: root array -> child array A -> grandchild array G plus a child map B (plain and wrapped variants), all handles obtained once at creation and never refreshed; every sequence of 4 (quick) / 5 (thorough) operations over a 12-operation alphabet (G append / remove / bulk pop, A insert-front / remove / settype, B set / remove, root insert-front / remove / append maximal element, commit with cold rebuild) at slab size 256, where two or three medium elements push G and then A across the inline limit; full tree, inline rule, API deep comparison, reachability and M-dirty after every operation",
 		Assumptions: []string{"one canonical handle per container; refreshing a handle drops the handles of its descendants", "handles of nested containers are re-acquired through their parents after a cache eviction or a reopen (roots are kept / reopened by id)", "mutation through handles from read-only iterators is not generated", "exploration, not proof"},
-		Mandatory:   []string{"inline_to_standalone_flips", "standalone_to_inline_flips", "cold_reopens"},
+		Mandatory:   []string{"inline_to_standalone_flips", "standalone_to_inline_flips", "cold_reopens", "small-scope-sequences-nested"},
 	})
 	register(&Prop{
 		ID: "C11", Level: "exploration", Run: runC11, Cases: cases(16*24, 16*200), MinNonTrivial: 8,
